@@ -352,6 +352,28 @@ func init() {
 						execVerify(t, false, name)
 					}
 				}
+				if r.P(4) {
+					// fields whose last byte is zero, with that byte cut off (a decoder that pads short input with
+					// zeros would accept them): grind created_at until the id — or the signature — ends in "00"
+					g := cloneEv(e)
+					key := privKey(r.Intn(5))
+					wantSig := r.P(40)
+					for try := 0; try < 4000; try++ {
+						g.CreatedAt = int64(1600000000 + r.Intn(100000000))
+						signEvent(g, key)
+						if (!wantSig && strings.HasSuffix(g.ID, "00")) || (wantSig && strings.HasSuffix(g.Sig, "00")) {
+							c := cloneEv(g)
+							if wantSig {
+								c.Sig = c.Sig[:len(c.Sig)-2]
+								execVerify(c, false, "sig-zero-byte-cut")
+							} else {
+								c.ID = c.ID[:len(c.ID)-2]
+								execVerify(c, false, "id-zero-byte-cut")
+							}
+							break
+						}
+					}
+				}
 				if r.P(10) {
 					// malformed hex / upper-case variants: model comparison only
 					c := cloneEv(e)
